@@ -108,6 +108,8 @@ def mutations(rng, kb, ver):
 
 
 def generate(rng, tier, seed):
+    from props.tr31util import digit_payload_cases
+    yield from digit_payload_cases(rng)
     reps = 1 if tier == "quick" else 3
     for ver in "ABCD":
         bs, ksizes, ml = VERS[ver]
